@@ -631,8 +631,8 @@ impl Prop for C04 {
     }
     fn cases(&self, tier: Tier, build: &str) -> u32 {
         match (tier, build) {
-            (Tier::Quick, "fast") => 16_000,
-            (Tier::Quick, _) => 8_000,
+            (Tier::Quick, "fast") => 48_000,
+            (Tier::Quick, _) => 24_000,
             (Tier::Thorough, "fast") => 400_000,
             (Tier::Thorough, _) => 150_000,
         }
